@@ -2,6 +2,7 @@
    the model, which are tied to src/cl03/sigma_protocols.rs by the constants regenerated on every run (requests_tied) and
    by the draw-request correspondence (every logged draw's bit length must equal the model's request). *)
 From ZK Require Import Cl ClArith ClConsts ClMask.
+From ZK Require Import ClTies.
 
 Theorem C19_response_quotient :
   forall r c x, (0 < c)%Z -> ((r + c * x) / c = x + r / c)%Z.
@@ -54,3 +55,20 @@ Check (C19_nisp2sec_responses_masked :
   forall CS r c x, (321 <= ln CS + MASK)%Z ->
   (2 ^ (ln CS + MASK - 1) <= r)%Z -> (0 < c < 2 ^ 256)%Z -> (2 ^ 64 <= (r + c * x) / c - x)%Z).
 Print Assumptions C19_nisp2sec_responses_masked.
+
+(* finding F16 on the faithful model: the first response of every same-secret sub-proof of a range proof, divided by the public
+   challenge, is the secret it answers for up to (2^(l+t) b - 1) / challenge -- with the 256-bit challenge of the code, the secret itself *)
+Theorem C19_same_secret_response_pins_x :
+  forall BP x r1 r2 g1 h1 g2 h2 b n ds p ds',
+  Forall int_ok ds ->
+  proof_same_secret BP x r1 r2 g1 h1 g2 h2 b n ds = Ok (p, ds') ->
+  (0 < ss_chal p)%Z ->
+  (x <= ss_d p / ss_chal p <= x + (two (b_l BP + b_t BP) * b - 1) / ss_chal p)%Z.
+Proof. exact same_secret_response_pins_x. Qed.
+Check (C19_same_secret_response_pins_x :
+  forall BP x r1 r2 g1 h1 g2 h2 b n ds p ds',
+  Forall int_ok ds ->
+  proof_same_secret BP x r1 r2 g1 h1 g2 h2 b n ds = Ok (p, ds') ->
+  (0 < ss_chal p)%Z ->
+  (x <= ss_d p / ss_chal p <= x + (two (b_l BP + b_t BP) * b - 1) / ss_chal p)%Z).
+Print Assumptions C19_same_secret_response_pins_x.
